@@ -50,10 +50,20 @@ def gen_plan(rng, nvars=None):
         pi = len(plan)
         plan.append({"kind": "d", "inp": params + [pi], "var": k})
         avail.append(pi)
+    # free-standing distribution nodes (extra factors of the joint density, no variable of their own) evaluated at
+    # a variable: never simulated
+    proxies = [i + 1 for i, p in enumerate(plan) if p["kind"] == "p"]
+    for _ in range(rng.choice([0, 0, 1, 1, 2])):
+        at = rng.choice(proxies)
+        # parameters must not descend from the variable the factor is evaluated at: liesel's simulation graph would
+        # be cyclic and Model.__init__ refuses such a model (nodes created before the variable cannot descend from it)
+        early = [a for a in avail if a < at - 1]
+        params = rng.sample(early, min(len(early), rng.choice([0, 1, 2])))
+        plan.append({"kind": "f", "inp": params + [at]})
     return plan
 
 
-SPEC_KIND = {"v": "v", "c": "c", "t": "t", "p": "p", "d": "c"}
+SPEC_KIND = {"v": "v", "c": "c", "t": "t", "p": "p", "d": "c", "f": "c"}
 
 
 class SimRun:
@@ -74,6 +84,10 @@ class SimRun:
                 cls = lsl.Calc if p["kind"] == "c" else lsl.TransientCalc
                 ins = [self.nodes[j] for j in p["inp"]]
                 self.nodes[i] = cls(self._fn(i), *ins, _name=name)
+            elif p["kind"] == "f":
+                fac = lsl.Dist(self._dist(i), *[self.nodes[j] for j in p["inp"][:-1]], _name=name)
+                fac.at = self.nodes[p["inp"][-1]]
+                self.nodes[i] = fac
             elif p["kind"] == "d":
                 pi = p["inp"][-1]
                 vi = plan[pi - 1]["inp"][0]
@@ -141,7 +155,7 @@ class SimRun:
                 pi = p["inp"][-1]
                 sims.append({"d": i, "target": self.plan[pi - 1]["inp"][0], "params": p["inp"][:-1]})
         return {"n": self.n, "kind": kinds, "inp": [p["inp"] for p in self.plan], "init": init,
-                "sims": sims, "plan": self.plan, "value_shapes": snap["shapes"]}
+                "sims": sims, "factors": [i for i, p in enumerate(self.plan, start=1) if p["kind"] == "f"], "plan": self.plan, "value_shapes": snap["shapes"]}
 
     def op(self, o):
         m = self.model
